@@ -438,7 +438,7 @@ def run_job(job):
                            dict(kind='robots-status', status=status, body=body))
         res['samples'].append(dict(surface='robots.txt status', statuses=job['statuses']))
     else:
-        for name in list(E2E) + ['cookie-flood']:
+        for name in list(E2E) + ['cookie-flood', 'bad-cert']:
             v = run_e2e(name)
             res['evaluations'] += 1
             tally(v)
@@ -689,10 +689,42 @@ def run_cookie_flood():
     return None
 
 
+def run_bad_cert():
+    """A linked https host fails certificate verification (checking is on): a certificate
+    error is one of the per-URL error kinds, the rest of the crawl goes on."""
+    from vt.appharn import AppRun
+    site = {'hosts': {'a.test': {'/': {'links': ['https://bad.test/x', '/sibling',
+                                                'https://bad.test/y', '/after']},
+                                 '/sibling': {'links': ['/deep']}, '/after': {'links': []},
+                                 '/deep': {'links': []}},
+                      'bad.test': {'/x': {'links': []}, '/y': {'links': []}}}}
+    argv = ['http://a.test/', '-r', '--span-hosts', '--no-robots', '--delete-after',
+            '--waitretry', '0', '--tries', '2']
+    out = AppRun(site, argv, Chooser(), early=False, bad_cert=['bad.test']).run()
+    if out['result'] != 'ok':
+        return 'crawl does not terminate: %s' % out['result']
+    if out['exc']:
+        return 'application raised %s' % out['exc'][:80]
+    if out['exit'] == 1:
+        return 'exit status 1 (generic error / crash)'
+    if out['loop_errors']:
+        return 'unretrieved exception %r' % (out['loop_errors'][:1],)
+    for u, r in sorted((out['rows'] or {}).items()):
+        if r['status'] not in ('done', 'error', 'skipped'):
+            return 'crawl ended with %s left %s after a certificate error' % (u, r['status'])
+    got = {q['target'] for q in out['requests']}
+    for want in ('/sibling', '/after', '/deep'):
+        if want not in got:
+            return '%s was not fetched after the certificate error' % want
+    return None
+
+
 def run_e2e(name):
     from vt.appharn import AppRun
     if name == 'cookie-flood':
         return run_cookie_flood()
+    if name == 'bad-cert':
+        return run_bad_cert()
     site = {'hosts': {'a.test': {
         '/': {'links': ['/hostile', '/sibling']},
         '/hostile': {'raw': E2E[name], 'close': True},
